@@ -69,7 +69,7 @@ TEXT = {
         "technique": "exhaustive enumeration of structured input grids (state triples x intervals incl. negative, zero and 1 ns; 49 units x 3 setters; all kind pairs for command arithmetic) on the real State/Command API against closed-form references",
         "text": "State::update on 280 states x 8 intervals; setters on 49 units (accept iff right unit, else state bit-identical); "
                 "Command::from(State) incl. -0; all accessors/round trips; component-wise arithmetic; mixed-kind command "
-                "addition/subtraction must panic.",
+                "addition/subtraction must panic. Plus dense sweeps of the continuous parameters over a ratio grid (2^(1/16) steps, thorough 2^(1/32), plus 1 +- 2^-k).",
         "note": "Grid values only.",
     },
     "C18": {
@@ -78,7 +78,7 @@ TEXT = {
         "text": "Integer operators equal i64 arithmetic on 625 boundary pairs x 19 forms; Time->Quantity within 2 ulp, monotone, "
                 "round trip bound, on 63 x 2^13 x 12 (2^16 thorough) structured values covering every rounding situation "
                 "of i64->f32; Quantity->Time within one rounding + 1 ns on every 64th f32 (thorough: all of them); only "
-                "SECOND/DIMENSIONLESS convert; mixed operators equal converted Quantity operators.",
+                "SECOND/DIMENSIONLESS convert; mixed operators equal converted Quantity operators. Plus dense sweeps of the continuous parameters over a ratio grid (2^(1/16) steps, thorough 2^(1/32), plus 1 +- 2^-k).",
         "note": "The thorough tier enumerates the complete f32 domain of the Quantity->Time conversion.",
     },
     "C06": {
@@ -87,7 +87,7 @@ TEXT = {
         "text": "For every grid profile the constructor accepts, all six accessors are read at ~25 instants including i64 "
                 "extremes and each phase boundary -1/0/+1 ns and must describe the same instant (exact relations, no "
                 "numeric tolerance); 0<=t1<=t2<=t3; end command = lowest non-zero derivative of the end state forever "
-                "after completion.",
+                "after completion. Plus dense sweeps of the continuous parameters over a ratio grid (2^(1/16) steps, thorough 2^(1/32), plus 1 +- 2^-k).",
         "note": "The property is relational, so no numeric model is needed; coverage of the input space is the grid.",
     },
     "C07": {
@@ -96,7 +96,7 @@ TEXT = {
         "text": "Acceleration values exact; velocity and position within a derived tolerance of the piecewise-quadratic "
                 "reference at t=0, boundaries +-1 ns and 33 equally spaced instants (continuity, integral relation, "
                 "velocity bound); reference end point = goal; mirrored inputs give identical boundaries and negated "
-                "outputs; comfortably feasible moves are accepted. One known finding (zero displacement, F5).",
+                "outputs; comfortably feasible moves are accepted. One known finding (zero displacement, F5). Plus dense sweeps of the continuous parameters over a ratio grid (2^(1/16) steps, thorough 2^(1/32), plus 1 +- 2^-k).",
         "note": "Tolerance clause is the property's own; a wrong coefficient produces errors 1e5 x the tolerance.",
     },
     "C20": {
@@ -116,7 +116,7 @@ TEXT = {
                 "and Differential (4 trust modes): every subset of terminals wired to external terminals, every sequence of "
                 "3 (4) rounds for 2-terminal and 2 (3) for 3-terminal devices; after each update the own slots must equal the "
                 "projection of the pre-update reads, stamped with the newest contributing time; uninformed slots and "
-                "external slots bit-identical. Plus periodic histories (every primitive word of up to 2-4 symbols (per engine, see evidence bounds) over the core alphabet repeated to 16-64 events, with at most one deviation) and long runs on both sides of 2^8 and 2^9 events.",
+                "external slots bit-identical. Plus periodic histories (every primitive word of up to 2-4 symbols (per engine, see evidence bounds) over the core alphabet repeated to 16-64 events, with at most one deviation) and long runs on both sides of 2^8 and 2^9 events. Plus dense sweeps of the continuous parameters over a ratio grid (2^(1/16) steps, thorough 2^(1/32), plus 1 +- 2^-k).",
         "note": "Two state triples, five timing options per terminal and round (newest, tie, stale; negative and positive times).",
     },
     "C13": {
@@ -125,7 +125,7 @@ TEXT = {
         "text": "Same harness as C08 with commands: after each update every device terminal and connected external terminal "
                 "must read a newest issued command with issuer's time and kind, value mapped by the path; differential "
                 "leaves command slots bit-identical. Chains: all 4^1..4^4 (4^5) device sequences x all 2^6 (2^8) "
-                "issuing-end sequences, ends and every intermediate terminal checked exactly. Plus periodic histories (every primitive word of up to 2-4 symbols (per engine, see evidence bounds) over the core alphabet repeated to 16-64 events, with at most one deviation) and long runs on both sides of 2^8 and 2^9 events.",
+                "issuing-end sequences, ends and every intermediate terminal checked exactly. Plus periodic histories (every primitive word of up to 2-4 symbols (per engine, see evidence bounds) over the core alphabet repeated to 16-64 events, with at most one deviation) and long runs on both sides of 2^8 and 2^9 events. Plus dense sweeps of the continuous parameters over a ratio grid (2^(1/16) steps, thorough 2^(1/32), plus 1 +- 2^-k).",
         "note": "Two commands of different kinds; chain ratios are powers of two so the product is exact.",
     },
     "C15": {
@@ -145,7 +145,7 @@ TEXT = {
         "text": "Every history to depth 5 (6) over {P(dt,v): dt in {0,1ns,0.5s,3s}} + {N,E1} x windows {1ns,0.5s,2s,1h} and "
                 "smoothing {0,.25,.5,1}, plus 24/2 (64/3) long histories: no update panics; moving average equals the "
                 "time-weighted mean of the window (weights >=0, sum = window, asserted in the reference); EWMA equals "
-                "prev*(1-L)+new*L; convexity; first sample; absent ignored; variants agree. Plus periodic histories (every primitive word of up to 2-4 symbols (per engine, see evidence bounds) over the core alphabet repeated to 16-64 events, with at most one deviation) and long runs on both sides of 2^8 and 2^9 events.",
+                "prev*(1-L)+new*L; convexity; first sample; absent ignored; variants agree. Plus periodic histories (every primitive word of up to 2-4 symbols (per engine, see evidence bounds) over the core alphabet repeated to 16-64 events, with at most one deviation) and long runs on both sides of 2^8 and 2^9 events. Plus dense sweeps of the continuous parameters over a ratio grid (2^(1/16) steps, thorough 2^(1/32), plus 1 +- 2^-k).",
         "note": "Windows, smoothing constants, values and steps from fixed alphabets; decreasing timestamps are outside the property.",
     },
     "C10": {
@@ -155,7 +155,7 @@ TEXT = {
                 "symbols (4 intervals x 4 values) + N + E1 plus 24/2 (64/3) long histories; after each present sample the "
                 "output must equal trapezoid sums / backward differences applied once or twice, absent until 2 resp. 3 "
                 "samples, stamped with the newest sample, unit = input*s or input/s; to-state converters must panic "
-                "exactly on ill-dimensioned present samples; shift by -1e15/+11/+1e17 ns bit-identical. Plus periodic histories (every primitive word of up to 2-4 symbols (per engine, see evidence bounds) over the core alphabet repeated to 16-64 events, with at most one deviation) and long runs on both sides of 2^8 and 2^9 events.",
+                "exactly on ill-dimensioned present samples; shift by -1e15/+11/+1e17 ns bit-identical. Plus periodic histories (every primitive word of up to 2-4 symbols (per engine, see evidence bounds) over the core alphabet repeated to 16-64 events, with at most one deviation) and long runs on both sides of 2^8 and 2^9 events. Plus dense sweeps of the continuous parameters over a ratio grid (2^(1/16) steps, thorough 2^(1/32), plus 1 +- 2^-k).",
         "note": "Values/intervals from fixed alphabets (1 us .. 1 h); non-uniform spacing and non-linear signals are in the "
                 "alphabet precisely because equal spacing hides rectangle-vs-trapezoid and first-vs-second difference slips.",
     },
@@ -166,7 +166,7 @@ TEXT = {
                 "initial kinds, plus 24/2 (48/3) long histories; after every event (also after set) get() must equal the "
                 "reference: PID on the commanded component with kind-specific gains, output / integral / double integral, "
                 "absent for exactly 0/1/2 samples after start or reset, set(same) no-op, set(different) restarts, N "
-                "resets, E reported until next sample. Bit-exact on the dyadic alphabet. Plus periodic histories (every primitive word of up to 2-4 symbols (per engine, see evidence bounds) over the core alphabet repeated to 16-64 events, with at most one deviation) and long runs on both sides of 2^8 and 2^9 events.",
+                "resets, E reported until next sample. Bit-exact on the dyadic alphabet. Plus periodic histories (every primitive word of up to 2-4 symbols (per engine, see evidence bounds) over the core alphabet repeated to 16-64 events, with at most one deviation) and long runs on both sides of 2^8 and 2^9 events. Plus dense sweeps of the continuous parameters over a ratio grid (2^(1/16) steps, thorough 2^(1/32), plus 1 +- 2^-k).",
         "note": "Two states, two intervals, six commands; gains distinct per kind so that a wrong selection shows.",
     },
     "C04": {
@@ -177,7 +177,7 @@ TEXT = {
                 "last reset, bit-exactly on the dyadic alphabet and within a derived forward-error bound on the broad "
                 "one; 24/2 (64/3) deviation-bounded long histories cover integral accumulation. Shift by -1e15/+7/+1e17 "
                 "ns must be bit-identical, scaling by 2^-3/2^4 exact, and the controller composed from the crate's own "
-                "difference/integral/derivative/product/sum streams must agree. Plus periodic histories (every primitive word of up to 2-4 symbols (per engine, see evidence bounds) over the core alphabet repeated to 16-64 events, with at most one deviation) and long runs on both sides of 2^8 and 2^9 events.",
+                "difference/integral/derivative/product/sum streams must agree. Plus periodic histories (every primitive word of up to 2-4 symbols (per engine, see evidence bounds) over the core alphabet repeated to 16-64 events, with at most one deviation) and long runs on both sides of 2^8 and 2^9 events. Plus dense sweeps of the continuous parameters over a ratio grid (2^(1/16) steps, thorough 2^(1/32), plus 1 +- 2^-k).",
         "note": "Gains, setpoints, values and intervals from fixed alphabets (intervals 1 us .. 1 h). The controller's memory "
                 "is one previous sample plus the integral, so depth >= 3 reaches every distinct stage.",
     },
